@@ -869,7 +869,16 @@ pub fn replay(e: &'static dyn Engine, ctx: &Ctx, file: &str) -> i32 {
             println!("VIOLATION property={} replay={file}", e.id());
             println!("  class={class} profile={profile} :: {msg}");
             if !r.detail.is_null() {
-                println!("  detail: {}", r.detail);
+                // the full detail (event history, decisions) is in the replay file
+                let d = r.detail.to_string();
+                let cut: String = d.chars().take(1500).collect();
+                println!("  detail: {cut}{}", if d.len() > cut.len() { " …" } else { "" });
+                if let Some(h) = r.detail["history"].as_array() {
+                    println!("  history ({} events, last 25):", h.len());
+                    for l in h.iter().skip(h.len().saturating_sub(25)) {
+                        println!("    {}", l.as_str().unwrap_or(""));
+                    }
+                }
             }
             if let Some(c) = doc["class"].as_str()
                 && c != class
